@@ -375,7 +375,7 @@ Qed.
 
 Lemma ok_so_read o c : keeps I (so_read cfg sd o c).
 Proof.
-  unfold so_read. repeat kstep; try apply ok_select_init; try apply ok_db_select_one.
+  unfold so_read. repeat kstep; try apply ok_select_init; try apply ok_db_select_one; try apply ok_read.
   apply ok_upd. intros i; reflexivity.
 Qed.
 Lemma ok_so_set o c v : keeps I (so_set cfg sd o c v).
